@@ -4,7 +4,7 @@
    - decryption inverts encryption when D inverts E on blocks,
    - the length guard. *)
 From Coq Require Import ZArith NArith List Lia Bool.
-From MTV Require Import Base.Bytes Base.Outcome Prim.Xor Prim.Aes256 Crypto.Ige Crypto.IgeMem.
+From MTV Require Import Base.Bytes Base.Outcome Prim.Xor Prim.Aes256 Prim.Aes256Facts Crypto.Ige Crypto.IgeMem.
 Import ListNotations.
 Open Scope nat_scope.
 
@@ -128,6 +128,49 @@ Proof.
   f_equal. apply IH; try assumption. apply xorb_length_eq; assumption.
 Qed.
 End Spec.
+
+(* the same for a block cipher that is only known to invert on blocks of bytes (values below 256),
+   which is what is proved for the Gallina AES in Prim/Aes256Inv.v *)
+Lemma ok_firstn n (l : bytes) : ok l -> ok (firstn n l).
+Proof. intros H. rewrite <- (firstn_skipn n l) in H. apply ok_app in H. tauto. Qed.
+Lemma ok_skipn n (l : bytes) : ok l -> ok (skipn n l).
+Proof. intros H. rewrite <- (firstn_skipn n l) in H. apply ok_app in H. tauto. Qed.
+
+Lemma chunks16_ok (l : bytes) : ok l -> Forall (fun b => ok b) (chunks16 l).
+Proof.
+  assert (H : forall n (l : bytes), length l <= n -> ok l -> Forall (fun b => ok b) (chunks16 l)).
+  { induction n as [|n IH]; intros l0 Hl Hok.
+    - destruct l0; [constructor|cbn [length] in Hl; lia].
+    - do 16 (destruct l0 as [|? l0]; [constructor|]).
+      cbn [chunks16]. rewrite !ok_cons in Hok. constructor.
+      + rewrite !ok_cons. tauto.
+      + apply IH; [cbn [length] in Hl; lia|tauto]. }
+  apply (H (length l)). lia.
+Qed.
+
+Section SpecOk.
+Variables E D : bytes -> bytes.
+Hypothesis E_len : forall b, length (E b) = 16.
+Hypothesis E_ok : forall b, ok b -> ok (E b).
+Hypothesis DE : forall b, len16 b -> ok b -> D (E b) = b.
+
+Theorem ige_dec_enc_ok ps : forall c0 p0, len16 c0 -> len16 p0 -> ok c0 -> ok p0 ->
+  Forall len16 ps -> Forall (fun p => ok p) ps ->
+  ige_dec D c0 p0 (ige_enc E c0 p0 ps) = ps.
+Proof.
+  induction ps as [|p r IH]; intros c0 p0 Hc Hp Oc Op Hps Ops; cbn [ige_enc ige_dec]; [reflexivity|].
+  apply Forall_cons_iff in Hps as [Hp1 Hr]. apply Forall_cons_iff in Ops as [Op1 Or].
+  assert (Hx : len16 (xorb p c0)) by (apply xorb_length_eq; assumption).
+  assert (Ox : ok (xorb p c0)) by (apply xorb_bytes_ok; assumption).
+  assert (He : len16 (E (xorb p c0))) by apply E_len.
+  rewrite xorb_cancel_r by (rewrite He, Hp; reflexivity).
+  rewrite DE by assumption.
+  rewrite xorb_cancel_r by (rewrite Hp1, Hc; reflexivity).
+  f_equal. apply IH; try assumption.
+  - apply xorb_length_eq; assumption.
+  - apply xorb_bytes_ok; [apply E_ok, Ox|exact Op].
+Qed.
+End SpecOk.
 
 (* ------------------------------------------------------------------------------------------ *)
 (* the loops as written *)
@@ -510,3 +553,45 @@ Proof.
   rewrite (ige_decrypt_encrypt key iv data n DE Hiv Hd), Hcl. reflexivity.
 Qed.
 End TopED.
+
+(* ---- both, for a cipher known to invert on blocks of bytes under keys of bytes ---- *)
+Section TopEDok.
+Variables E D : bytes -> bytes -> bytes.
+Hypothesis E_len : forall k b, length (E k b) = 16.
+
+Theorem ige_decrypt_encrypt_ok key iv data n :
+  (forall b, ok b -> ok (E key b)) ->
+  (forall b, len16 b -> ok b -> D key (E key b) = b) ->
+  length iv = 32 -> length data = 16 * n -> ok iv -> ok data ->
+  ige_decrypt D key iv (ige_encrypt E key iv data) = data.
+Proof.
+  intros EO DE Hiv Hd Oiv Od. destruct (blocks_of n data Hd) as (Hall & Hcat & Hlen).
+  assert (Hc : len16 (firstn 16 iv)) by (unfold len16; rewrite firstn_length; lia).
+  assert (Hp : len16 (skipn 16 iv)) by (unfold len16; rewrite skipn_length; lia).
+  unfold ige_decrypt, ige_encrypt.
+  rewrite chunks16_concat by (apply ige_enc_len16; try assumption; apply E_len).
+  rewrite (ige_dec_enc_ok (E key) (D key) (E_len key) EO DE); try assumption.
+  - apply ok_firstn, Oiv.
+  - apply ok_skipn, Oiv.
+  - apply chunks16_ok, Od.
+Qed.
+
+Hypothesis D_len : forall k b, length (D k b) = 16.
+
+Theorem do_decrypt_encrypt_ok key iv data out1 out2 n :
+  (forall b, ok b -> ok (E key b)) ->
+  (forall b, len16 b -> ok b -> D key (E key b) = b) ->
+  key_len_ok key = true -> length iv = 32 -> length data = 16 * n -> 1 <= n ->
+  ok iv -> ok data ->
+  length data <= length out1 -> length data <= length out2 ->
+  exists c, do_encrypt E data out1 key iv = (Done, c ++ skipn (length data) out1, data) /\
+            length c = length data /\
+            do_decrypt D c out2 key iv = (Done, data ++ skipn (length data) out2, c).
+Proof.
+  intros EO DE Hk Hiv Hd Hn Oiv Od Ho1 Ho2. exists (ige_encrypt E key iv data).
+  pose proof (ige_encrypt_length E E_len key iv data n Hiv Hd) as Hcl.
+  split; [eapply (do_encrypt_is_ige E E_len); eassumption|]. split; [exact Hcl|].
+  rewrite (do_decrypt_is_ige D D_len key iv _ out2 n); try assumption; try lia.
+  rewrite (ige_decrypt_encrypt_ok key iv data n EO DE Hiv Hd Oiv Od), Hcl. reflexivity.
+Qed.
+End TopEDok.
